@@ -79,10 +79,10 @@ RecDataClosed   == IsRec => /\ \A b \in RKnown : Par(b) = 0 \/ Par(b) \in RKnown
 RecCanonHasHeads == IsRec => RC(Num(R.hb)) = R.hb /\ RC(Num(R.hh)) = R.hh
 RecCanonLinked  == IsRec => \A i \in 1..N : R.canon[i] # Nil => (Num(R.canon[i]) = i /\ Par(R.canon[i]) = RC(i - 1))
 RecCanonEndsAtHead == IsRec => RTop = Num(R.hh)
-(* TODO-KNOWN-FINDING (C39-F4, see NOTES.md): reorg and SetHead update the number index, the  *)
+(* KNOWN-FINDING (C39-F4, see NOTES.md): reorg and SetHead update the number index, the  *)
 (* lookups and the head markers in several batches; a crash between them leaves heads without *)
-(* index entries or index entries above the heads.  Until the coordinator decides, the index  *)
-(* claims on crash images are made for calls that do not reorganise or rewind.                *)
+(* index entries or index entries above the heads.  Listed as open in known_findings.json; the *)
+(* index claims on crash images are made for calls that do not reorganise or rewind.           *)
 RecCanonHasHeadsPending   == Plain => RecCanonHasHeads
 RecCanonLinkedPending     == Plain => RecCanonLinked
 RecCanonEndsAtHeadPending == Plain => RecCanonEndsAtHead
